@@ -441,7 +441,7 @@ PROPS = {
         ]
     },
     "C03": {
-        "domains": [dom("c03", "Model.RunEnvelope", 5, 60)],
+        "domains": [dom("c03", "Model.RunEnvelope", 4, 60)],
         "trusted": ["'Forgery' in the theorems is an explicit witness (a successful AEAD opening of a ciphertext never produced under that key/context); Themis' actual unforgeability is outside the theorems",
                     "the stand-in's tag is a bijective-step hash: every single-bit change is detected, which the tamper enumeration relies on"],
         "assumptions": ["data-key freshness (dek not among the client's keys) as an explicit premise where needed"],
